@@ -15,11 +15,20 @@
 (* every planned target has answered, or with an error (a failing leaf,    *)
 (* every leaf "not found"), or when the request context ends (timeout).    *)
 (* A completed query without error carries the merge of ALL answers.       *)
+(*                                                                         *)
+(* Handling one answer has two parts: the bookkeeping (task state, one     *)
+(* expected answer less, error check: AnswerCount) and putting the decoded *)
+(* series into the grouping aggregator (AnswerMerge).  The code does both  *)
+(* in ONE critical section of the context mutex (`lock`), so whoever sees  *)
+(* an answer counted also sees its data; handlers of different answers run *)
+(* on different workers and overlap everywhere else.                       *)
 (***************************************************************************)
 EXTENDS Integers, Sequences, FiniteSets, TLC
 
 CONSTANT CountAtSend   \* FALSE (the code): every planned target is expected from plan time on ("add all targets then
                        \* send"); TRUE (deviation): an answer is expected only once its request is sent
+CONSTANT CountThenMerge \* FALSE (the code): handleResponse counts an answer and merges its data in ONE critical section;
+                        \* TRUE (deviation): two critical sections, the payload is decoded between them without the lock
 
 Kinds == {"data", "empty", "notfound", "error"}
 
@@ -28,25 +37,28 @@ VARIABLES
   kinds,     \* [leaf -> Kinds]: what each leaf answers (its data, nothing in range, metric unknown, a failure)
   targets,   \* targets of the physical plan
   sent,      \* targets whose request was sent
-  handled,   \* targets whose answer was handled by the root
+  counted,   \* targets whose answer was counted (bookkeeping part of handleResponse done)
+  handled,   \* targets whose answer was handled by the root completely (counted, data merged, tryClose)
+  lock,      \* the context mutex as far as answers hold it across two steps: NoLock or the target whose handler holds it
   expect,    \* expectResults
   tolerant,  \* tolerantNotFounds
   errs,      \* errors recorded in the context
   merged,    \* leaves whose data went into the grouping aggregator
   closed,    \* doneCh closed (latched: tryClose after an answer / after the pipeline completed)
-  res        \* what the caller got: [kind |-> "none"] | [kind |-> "ok", merged, handled] | [kind |-> "err", errs, handled] | [kind |-> "timeout", handled]
+  res        \* what the caller got: [kind |-> "none"] | [kind |-> "ok", merged, handled, counted] | [kind |-> "err", errs, handled] | [kind |-> "timeout", handled]
 
-vars == <<phase, kinds, targets, sent, handled, expect, tolerant, errs, merged, closed, res>>
+vars == <<phase, kinds, targets, sent, counted, handled, lock, expect, tolerant, errs, merged, closed, res>>
 
 NoRes == [kind |-> "none"]
+NoLock == "-"
 
 \* the state in which the leaves K (a function leaf -> kind) are about to be queried, whatever was before
 SetupState(K) ==
-  /\ phase' = "setup" /\ kinds' = K /\ targets' = {} /\ sent' = {} /\ handled' = {}
+  /\ phase' = "setup" /\ kinds' = K /\ targets' = {} /\ sent' = {} /\ counted' = {} /\ handled' = {} /\ lock' = NoLock
   /\ expect' = 0 /\ tolerant' = 0 /\ errs' = {} /\ merged' = {} /\ closed' = FALSE /\ res' = NoRes
 
 Init ==
-  /\ phase = "idle" /\ kinds = << >> /\ targets = {} /\ sent = {} /\ handled = {}
+  /\ phase = "idle" /\ kinds = << >> /\ targets = {} /\ sent = {} /\ counted = {} /\ handled = {} /\ lock = NoLock
   /\ expect = 0 /\ tolerant = 0 /\ errs = {} /\ merged = {} /\ closed = FALSE /\ res = NoRes
 
 Setup(K) == phase = "idle" /\ DOMAIN K # {} /\ SetupState(K)
@@ -57,46 +69,56 @@ Plan(T) ==
   /\ phase' = "run" /\ targets' = T
   /\ expect' = IF CountAtSend THEN 0 ELSE Cardinality(T)
   /\ tolerant' = Cardinality(T)
-  /\ UNCHANGED <<kinds, sent, handled, errs, merged, closed, res>>
+  /\ UNCHANGED <<kinds, sent, counted, handled, lock, errs, merged, closed, res>>
 
 \* one task send stage (they run one after another; the pipeline completes after the last one)
 Send(t) ==
   /\ phase = "run" /\ t \in targets \ sent /\ res.kind = "none"
   /\ sent' = sent \cup {t}
   /\ expect' = IF CountAtSend THEN expect + 1 ELSE expect
-  /\ UNCHANGED <<phase, kinds, targets, handled, tolerant, errs, merged, closed, res>>
+  /\ UNCHANGED <<phase, kinds, targets, counted, handled, lock, tolerant, errs, merged, closed, res>>
 
-\* MetricContext.HandleResponse of the answer of t (any time after its request was sent, also between two sends,
-\* also after the query completed): handleResponse + tryClose
-Answer(t) ==
-  /\ phase = "run" /\ t \in sent \ handled
-  /\ handled' = handled \cup {t}
+\* MetricContext.HandleResponse of the answer of t (any time after its request was sent, also between two sends, also
+\* after the query completed), first part -- handleTaskState, expectResults--, handleStats, checkError under the mutex.
+\* The code keeps the mutex for the second part; the deviation releases it here (the payload is decoded unlocked).
+AnswerCount(t) ==
+  /\ phase = "run" /\ t \in sent \ counted /\ lock = NoLock
+  /\ counted' = counted \cup {t}
   /\ LET k == kinds[t]
          tol == IF k = "notfound" THEN tolerant - 1 ELSE tolerant
-         e == IF k = "error" THEN errs \cup {"error"}
-              ELSE IF k = "notfound" /\ tol <= 0 THEN errs \cup {"notfound"}
-              ELSE errs
      IN /\ expect' = expect - 1
         /\ tolerant' = tol
-        /\ errs' = e
-        /\ merged' = IF k = "data" THEN merged \cup {t} ELSE merged
-        /\ closed' = (closed \/ expect - 1 <= 0 \/ e # {})
-  /\ UNCHANGED <<phase, kinds, targets, sent, res>>
+        /\ errs' = IF k = "error" THEN errs \cup {"error"}
+                   ELSE IF k = "notfound" /\ tol <= 0 THEN errs \cup {"notfound"}
+                   ELSE errs
+  /\ lock' = IF CountThenMerge THEN NoLock ELSE t
+  /\ UNCHANGED <<phase, kinds, targets, sent, handled, merged, closed, res>>
 
-\* the pipeline completed (Complete(nil) -> tryClose) and WaitResponse found doneCh closed
-ClosedNow == closed \/ expect <= 0 \/ errs # {}
+\* second part -- the series of the answer go into the grouping aggregator (under the mutex: the one still held, or
+\* in the deviation taken again), the mutex is released, then tryClose
+AnswerMerge(t) ==
+  /\ phase = "run" /\ t \in counted \ handled
+  /\ lock = IF CountThenMerge THEN NoLock ELSE t
+  /\ handled' = handled \cup {t}
+  /\ merged' = IF kinds[t] = "data" THEN merged \cup {t} ELSE merged
+  /\ lock' = NoLock
+  /\ closed' = (closed \/ expect <= 0 \/ errs # {})
+  /\ UNCHANGED <<phase, kinds, targets, sent, counted, expect, tolerant, errs, res>>
+
+\* the pipeline completed (Complete(nil) -> tryClose, which needs the mutex) and WaitResponse found doneCh closed
+ClosedNow == closed \/ (lock = NoLock /\ (expect <= 0 \/ errs # {}))
 Result ==
   /\ phase = "run" /\ res.kind = "none" /\ sent = targets /\ ClosedNow
   /\ closed' = TRUE
   /\ res' = IF errs # {} THEN [kind |-> "err", errs |-> errs, handled |-> handled]
-            ELSE [kind |-> "ok", merged |-> merged, handled |-> handled]
-  /\ UNCHANGED <<phase, kinds, targets, sent, handled, expect, tolerant, errs, merged>>
+            ELSE [kind |-> "ok", merged |-> merged, handled |-> handled, counted |-> counted]
+  /\ UNCHANGED <<phase, kinds, targets, sent, counted, handled, lock, expect, tolerant, errs, merged>>
 
 \* the request context ended while the root waited for answers
 Timeout ==
   /\ phase = "run" /\ res.kind = "none" /\ sent = targets /\ ~ClosedNow
   /\ res' = [kind |-> "timeout", handled |-> handled]
-  /\ UNCHANGED <<phase, kinds, targets, sent, handled, expect, tolerant, errs, merged, closed>>
+  /\ UNCHANGED <<phase, kinds, targets, sent, counted, handled, lock, expect, tolerant, errs, merged, closed>>
 
 \* ------------------------------------------------------------------ properties (C12, protocol level)
 DataLeaves == {t \in targets : kinds[t] = "data"}
@@ -105,6 +127,11 @@ DataLeaves == {t \in targets : kinds[t] = "data"}
 CompleteAfterAll ==
   res.kind = "ok" => /\ res.handled = targets
                      /\ res.merged = DataLeaves
+\* the result is the merge of ALL answers the root counted: an answer that made the query complete (it is counted) is
+\* in the result with its data -- nothing is between "heard" and "merged" for the one who builds the result
+ResultComplete ==
+  res.kind = "ok" => /\ res.counted \subseteq res.handled
+                     /\ \A t \in res.counted : kinds[t] = "data" => t \in res.merged
 \* a failure is never turned into a successful (partial or empty) answer
 NoSilentError ==
   res.kind = "ok" => /\ \A t \in targets : kinds[t] # "error"
